@@ -64,6 +64,7 @@ var rga = 0..3;
 var rgb = 0..4;
 var m0 = {}; var m1 = {}; var m2 = {};
 var runner = Fiber.new(|| { return 1; });
+var mv0 = [7]; var mv1 = [7]; var mv2 = [7];
 """
 
 
@@ -89,7 +90,7 @@ def yeq(a, x):
     return False
 
 
-def enc_model(v):
+def enc_plain(v):
     k = v[0]
     if k == "n":
         return num(v[1])
@@ -100,13 +101,13 @@ def enc_model(v):
     if k == "nil":
         return None
     if k == "t":
-        return {"t": [enc_model(e) for e in v[1]]}
+        return {"t": [enc_plain(e) for e in v[1]]}
     if k == "c":
         return cls(CLASS_NAMES[v[1]])
     if k == "r":
         return {"r": [v[2], v[3]]}
     if k == "v":
-        return {"v": [enc_model(e) for e in v[1]]}
+        return {"v": [enc_plain(e) for e in v[1]]}
     raise ValueError(v)
 
 
@@ -141,6 +142,8 @@ def val_expr(v):
         return "[%d]" % i
     if k == "vs":
         return '("v" + "%d")' % i
+    if k == "vm":
+        return "mv%d" % i          # one of three vectors that are == to each other until one of them is changed
     return '(%d, "x")' % i
 
 
@@ -152,6 +155,8 @@ def val_model(v):
         return ("v", [("n", float(i))])
     if k == "vs":
         return ("s", "v%d" % i)
+    if k == "vm":
+        return ("ref", i)
     return ("t", [("n", float(i)), ("s", "x")])
 
 
@@ -175,8 +180,12 @@ def gen_ir(seed):
     nops = rng.range(8, 80)
     vid = [0]
 
+    p_vm = rng.choice([0.0, 0.15, 0.4])
+
     def val():
         vid[0] += 1
+        if rng.chance(p_vm):
+            return ["vm", rng.below(3)]
         return [rng.choice(["vn", "vn", "vv", "vs", "vt"]), vid[0]]
 
     def key():
@@ -211,6 +220,14 @@ def gen_ir(seed):
         elif x < 95 and rng.chance(0.5):
             n = rng.choice([120, 127, 128, 129, 200, 254, 255])
             ops.append(["biglit", mi, n, rng.range(0, 3)])
+        elif x < 96 and rng.chance(0.5):
+            # one map grown by insert far past the size a literal can have, then (sometimes) emptied again key by key
+            n = rng.choice([230, 300, 520, 900, 1100])
+            ops.append(["grow", mi, n])
+            if rng.chance(0.5):
+                ops.append(["ungrow", mi, n - rng.below(3)])
+        elif x < 98 and p_vm:
+            ops.append(["mut", rng.below(3), rng.below(3)])
         else:
             ops.append(["churn", rng.range(1, 6)])
     # the whole operation sequence may run inside a fiber (then `runner` is the running fiber itself)
@@ -228,7 +245,7 @@ def render(ir):
         e("runner = Fiber.new(|| {")
     for i, op in enumerate(ir["ops"]):
         k = op[0]
-        m = "m%d" % op[1] if k != "churn" else None
+        m = "m%d" % op[1] if k not in ("churn", "mut") else None
         if k == "insert":
             body = 'print(("ev", %d, %s.insert(%s, %s)));' % (i, m, key_expr(op[2], m), val_expr(op[3]))
         elif k == "remove":
@@ -258,6 +275,13 @@ def render(ir):
         elif k == "churn":
             e("{ var junk = []; for ci in 0..%d { junk.push((ci, [ci], \"c\" + \"h\")); } }" % op[1])
             continue
+        elif k == "mut":
+            e("mv%d.push(%d);" % (op[1], i))
+            continue
+        elif k == "grow":
+            body = 'for gi in 0..%d { %s.insert(1000 + gi, gi); } print(("ev", %d, "grow", %s.len(), %s.get(1000), %s.get(%d)));' % (op[2], m, i, m, m, m, 1000 + op[2] - 1)
+        elif k == "ungrow":
+            body = 'var gone = 0; for gi in 0..%d { if %s.remove(1000 + gi) == gi { gone = gone + 1; } } print(("ev", %d, "ungrow", %s.len(), gone));' % (op[2], m, i, m)
         else:
             raise ValueError(k)
         e("try { %s } catch e { print((\"ev\", %d, type(e))); }" % (body, i))
@@ -299,11 +323,43 @@ def model(ir):
         probes.inc("overwrites_of_equal_key")
         return old
 
+    pool = [[7.0], [7.0], [7.0]]
+
+    def enc_model(v):
+        if v[0] == "ref":
+            probes.inc("value_is_one_of_several_equal_vectors")
+            return {"v": [num(x) for x in pool[v[1]]]}
+        return enc_plain(v)
+
     for i, op in enumerate(ir["ops"]):
         k = op[0]
         if k == "churn":
             continue
+        if k == "mut":
+            pool[op[1]].append(float(i))
+            continue
         mp = maps[op[1]]
+        if k == "grow":
+            have = {kk[1] for kk, _ in mp if kk[0] == "n"}
+            for gi in range(op[2]):
+                if (1000.0 + gi) in have:
+                    mp[find(mp, ("n", 1000.0 + gi))] = (("n", 1000.0 + gi), ("n", float(gi)))
+                else:
+                    mp.append((("n", 1000.0 + gi), ("n", float(gi))))
+            probes.inc("map_grown_by_insert")
+            ev.append((i, "plain", [num(i), s("grow"), num(len(mp)), num(0), num(op[2] - 1)]))
+            probes.max("map_size", len(mp))
+            continue
+        if k == "ungrow":
+            gone = 0
+            for gi in range(op[2]):
+                j = find(mp, ("n", 1000.0 + gi))
+                if j is not None:
+                    if yeq(mp[j][1], ("n", float(gi))):
+                        gone += 1
+                    del mp[j]
+            ev.append((i, "plain", [num(i), s("ungrow"), num(len(mp)), num(gone)]))
+            continue
         if k in ("insert", "remove", "get", "has"):
             if op[2] in UNHASHABLE:
                 probes.inc("unhashable_rejected")
